@@ -821,6 +821,102 @@ def _pure_self_methods(tree: ast.Module) -> set:
     return pure
 
 
+_REPO_WRITES: dict = {}          # whole package: function/method name -> set of attribute names it may store (transitively, by name), or None = anything
+
+
+_GENERIC_METHODS = {"get", "update", "append", "extend", "add", "pop", "clear", "items", "keys", "values", "join", "format", "pack", "unpack", "unpack_from", "pack_into",
+                    "put", "wait", "notify_all", "notify", "acquire", "release", "sleep", "time", "remove", "insert", "index", "count", "copy", "setdefault", "sort",
+                    "read", "write", "close", "flush", "seek", "tell", "readline", "encode", "decode", "strip", "rstrip", "lstrip", "split", "replace", "upper", "lower",
+                    "startswith", "endswith", "ljust", "rjust", "hex", "to_bytes", "from_bytes", "tobytes", "empty", "get_nowait", "put_nowait", "send", "recv", "start", "stop",
+                    "debug", "info", "warning", "warn", "error", "exception", "critical", "log", "group", "match", "sub", "search", "shutdown", "send_periodic", "modify_data",
+                    "has_section", "has_option", "options", "sections", "add_section", "set", "getint", "read_file", "process", "final"}
+
+
+def _repo_effects(pkg_dir: str, root: str, overlay) -> None:
+    """Name-based effect summary of the whole package, from the raw syntax trees: for every function or method name the attribute
+    names that a function of that name may store, through calls of functions/methods of the package followed by name.  A call of
+    something that is not a function of the package, a pure built-in or a method of an external library object (a local callable,
+    a parameter: callbacks) makes the summary None = may store anything.  Methods of names the package does not define are taken
+    not to store the package's attributes."""
+    global _REPO_WRITES
+    trees = []
+    for dirpath, dirnames, filenames in os.walk(pkg_dir):
+        dirnames[:] = sorted(d for d in dirnames if d != "__pycache__")
+        for fn_ in sorted(filenames):
+            if fn_.endswith(".py"):
+                path = os.path.join(dirpath, fn_)
+                rel = os.path.relpath(path, root)
+                try:
+                    src_ = overlay[rel] if rel in (overlay or {}) else open(path, encoding="utf-8").read()
+                    trees.append(ast.parse(src_))
+                except (SyntaxError, OSError):
+                    _REPO_WRITES = {}
+                    return
+    direct, calls, opaque, classes = {}, {}, set(), set()
+    for t in trees:
+        for c in ast.walk(t):
+            if isinstance(c, ast.ClassDef):
+                classes.add(c.name)
+    owner_of = {}
+    for t in trees:
+        for c in [n for n in ast.walk(t) if isinstance(n, ast.ClassDef)]:
+            for m in c.body:
+                if isinstance(m, ast.FunctionDef) and m.name == "__init__":
+                    owner_of[id(m)] = c.name
+    for t in trees:
+        for f in [n for n in ast.walk(t) if isinstance(n, ast.FunctionDef)]:
+            nm = f.name if f.name != "__init__" else f"{owner_of.get(id(f), '?')}.__init__"      # constructors are kept per class
+            params = {a.arg for a in f.args.posonlyargs + f.args.args + f.args.kwonlyargs} | ({f.args.vararg.arg} if f.args.vararg else set()) | ({f.args.kwarg.arg} if f.args.kwarg else set())
+            local_stores = {x.id for x in ast.walk(f) if isinstance(x, ast.Name) and isinstance(x.ctx, ast.Store)}
+            w = direct.setdefault(nm, set())
+            cs = calls.setdefault(nm, set())
+            for x in ast.walk(f):
+                if isinstance(x, ast.Attribute) and isinstance(x.ctx, (ast.Store, ast.Del)):
+                    w.add(x.attr)
+                elif isinstance(x, ast.Call):
+                    g = x.func
+                    if isinstance(g, ast.Attribute):
+                        if g.attr in _GENERIC_METHODS and not (isinstance(g.value, ast.Name) and g.value.id == "self"):
+                            continue                # a method name of the built-in containers / io / threading / queue on some object
+                        if g.attr == "__init__":
+                            continue                # a base-class constructor run on the object under construction
+                        if g.attr in classes:
+                            cs.add(f"{g.attr}.__init__")        # module.Class(...)
+                        else:
+                            cs.add(g.attr)
+                    elif isinstance(g, ast.Name):
+                        if g.id in ("setattr", "delattr", "exec", "eval"):
+                            opaque.add(nm)
+                        elif g.id in (params | local_stores) and g.id not in classes:
+                            opaque.add(nm)          # a callable handed in or bound locally: a callback
+                        else:
+                            cs.add(g.id)
+                    else:
+                        opaque.add(nm)
+    # constructors: calling a class runs its __init__
+    out = {k: (None if k in opaque else set(v)) for k, v in direct.items()}
+    for _ in range(len(out) + 2):
+        changed = False
+        for nm in out:
+            if out[nm] is None:
+                continue
+            for callee in calls.get(nm, ()):
+                targets = [callee] if callee in out else ([f"{callee}.__init__"] if callee in classes and f"{callee}.__init__" in out else [])
+                for tg in targets:
+                    if out.get(tg, set()) is None:
+                        out[nm] = None
+                        changed = True
+                        break
+                    if not out[tg] <= out[nm]:
+                        out[nm] |= out[tg]
+                        changed = True
+                if out[nm] is None:
+                    break
+        if not changed:
+            break
+    _REPO_WRITES = out
+
+
 _SELF_WRITES: dict = {}          # per module: method name -> set of attribute names it may store on any object, transitively through self-calls
 
 
@@ -917,8 +1013,11 @@ def _harmful_calls(e: ast.AST, attrs=None):
         if isinstance(f, ast.Attribute) and isinstance(f.value, ast.Name) and f.value.id == "self" and f.attr in _PURE_SELF_METHODS:
             continue                    # a method of self that stores nothing and calls nothing harmful
         if attrs is not None and isinstance(f, ast.Attribute) and isinstance(f.value, ast.Name) and f.value.id == "self" \
-                and _SELF_WRITES.get(f.attr) is not None and not (_SELF_WRITES[f.attr] & set(attrs)):
+                and _SELF_WRITES.get(f.attr) is not None and not (_SELF_WRITES[f.attr] & set(attrs)) and f.attr not in _REPO_WRITES:
             continue                    # a method of self that (transitively) stores none of the fields in question
+        if attrs is not None and isinstance(f, ast.Attribute) and f.attr in _REPO_WRITES and _REPO_WRITES[f.attr] is not None \
+                and not (_REPO_WRITES[f.attr] & set(attrs)):
+            continue                    # a method of the package that, followed by name through the whole package, stores none of the fields
         if isinstance(f, ast.Attribute) and isinstance(f.value, ast.Name):
             if f"{f.value.id}.{f.attr}" in _PURE_STATIC:
                 continue
@@ -2118,6 +2217,7 @@ class Repo:
         pkg_dir = os.path.join(self.root, package)
         if not os.path.isdir(pkg_dir):
             raise AnalysisError("E1", f"package directory {pkg_dir} not found")
+        _repo_effects(pkg_dir, self.root, overlay)
         for dirpath, dirnames, filenames in os.walk(pkg_dir):
             dirnames[:] = sorted(d for d in dirnames if d != "__pycache__")
             for fn in sorted(filenames):
